@@ -1,0 +1,54 @@
+#pragma once
+
+/**
+ * Verification hooks of the core (compiled only when ORATIO_VERIF is defined): the translation of RIDDLE operators
+ * into constraints and the assertion of facts are reported to a tracer installed by a driver.
+ */
+#ifdef ORATIO_VERIF
+#include "core_export.h"
+#include "context.h"
+#include "lit.h"
+#include <vector>
+
+namespace ratio
+{
+  class core;
+
+  namespace verif
+  {
+    class core_tracer
+    {
+    public:
+      virtual ~core_tracer() = default;
+      virtual void op(core &, const char *, const std::vector<expr> &, const expr &) {} // operator applied to the arguments -> resulting expression
+      virtual void asserted(core &, const smt::lit &, const smt::lit &) {}               // assert_facts: guard 'ni', fact
+    };
+
+    CORE_EXPORT core_tracer *&current_core() noexcept;
+  } // namespace verif
+} // namespace ratio
+
+#define ORATIO_VERIF_CORE_HOOK(call)                 \
+  do                                                 \
+  {                                                  \
+    if (auto *vt_ = ratio::verif::current_core())    \
+      vt_->call;                                     \
+  } while (0)
+
+#define ORATIO_VERIF_CORE_WRAP(self_call, log)       \
+  {                                                  \
+    static thread_local bool raw_ = false;           \
+    if (raw_)                                        \
+      raw_ = false;                                  \
+    else if (auto *vt_ = ratio::verif::current_core()) \
+    {                                                \
+      raw_ = true;                                   \
+      auto vr_ = self_call;                          \
+      vt_->log;                                      \
+      return vr_;                                    \
+    }                                                \
+  }
+#else
+#define ORATIO_VERIF_CORE_HOOK(call)
+#define ORATIO_VERIF_CORE_WRAP(self_call, log)
+#endif
